@@ -125,7 +125,7 @@ def check(prog, run):
                        "character (each \\uXXXX is decoded on its own, so a surrogate pair becomes two lone surrogates)" % (cls, how))
 
     # ---- E3 every string the encoder can emit is lexed back as one String token
-    r = run.rule("E3", "every spelling the quoted-string encoder (json.dumps) can emit for one character — verbatim printable / "
+    r = run.rule("E3", "every string the quoted-string encoder (json.dumps) can emit — any sequence of its per-character spellings: verbatim printable / "
                        "non-ASCII characters, the short escapes \\\" \\\\ \\n \\r \\t \\b \\f, and \\u00xx with LOWER-case hex digits for the "
                        "other control characters — belongs to the String-token language of the lexer, extracted from "
                        "Lexer.__next__ by abstract interpretation (language inclusion decided on the product automaton, shortest "
@@ -153,10 +153,13 @@ def check(prog, run):
         spellings.append(("non-ASCII as \\uXXXX (lower-case hex)", [BS, "u", list("0123456789abcdef"), list("0123456789abcdef"), list("0123456789abcdef"), list("0123456789abcdef")]))
     alts = []
     for label, seq in spellings:
-        items = [ref.S({Q})] + [ref.S(set(x) if isinstance(x, list) else {x}) for x in seq] + [ref.S({Q}), ref.LA(ref.any), ref.RET("String")]
-        alts.append((label, rx.cat(*items)))
+        alts.append((label, rx.cat(*[ref.S(set(x) if isinstance(x, list) else {x}) for x in seq])))
         r.instance(label)
-    W = rx.alt(*[a for _l, a in alts])
+    # every STRING the encoder can emit: any sequence of those spellings between two quotes (a spelling must also survive
+    # what follows it: `\u0007` followed by the verbatim character `0`)
+    one = rx.alt(*[a for _l, a in alts])
+    W = rx.alt(rx.cat(ref.S({Q}), rx.plus(one), ref.S({Q}), ref.LA(ref.any), ref.RET("String")),
+               rx.cat(ref.S({Q}), ref.S({Q}), ref.LA(ref.any - {Q}), ref.RET("String")))       # `""` followed by `"` opens a block string
     res = rx.equivalent(rx.alt(limpl, W), limpl)
     if res is not None:
         witness, _side = res
